@@ -839,6 +839,11 @@ func init() {
 		for i := 0; i < n; i++ {
 			streamCase(rng, w)
 		}
+		// five devices heard at the same instant (two gateways reporting at once): every one of the five frames is decoded,
+		// attributed to its own device and recorded with its own reception
+		for i := 0; i < n/3; i++ {
+			burstCase(rng, w, "schedC09")
+		}
 	}
 	// C17: the gateway side (gw.go) and, for the delay clause, the pipeline handing a join-accept to whichever handler reads the buffer
 	gw17 := suites["C17"]
